@@ -45,6 +45,10 @@ ODE_SETS = {
 }
 
 
+from ..xcheck import XCheck
+
+XC = XCheck()
+
 def cli_args(rate_mod, ode_mod, method="dense", solver="cvode"):
     a = ["--name", "t", "--description", "d", "--loading", "", "--elements", "H,C", "--pseudo-elements", "Photon,CR", "--element-replacement", "", "--surface-prefix", "#", "--bulk-prefix", "@",
          "--allowed-species", "", "--extra-species", "", "--binding", "", "--yield", "", "--grain-symbol", "GRAIN", "--grain-model", "", "--network-files", "net.kida", "--file-formats", "kida",
@@ -117,6 +121,7 @@ def _analyse(kind, name, tier, res):
 
         def ask(nm, a, b, what, replay=None):
             r_ = str(s.check(R(a) != R(b)))
+            XC.sample(s, [R(a) != R(b)], r_, nm)
             if r_ == "unsat":
                 res["ok"].append(nm)
                 if len(res["samples"]) < 2:
@@ -217,10 +222,19 @@ def analyse_unindexed(tier):
     return res
 
 
-def _work(a):
+def _work_inner(a):
     if a[0] == "unindexed":
         return analyse_unindexed(a[2])
     return analyse(*a)
+
+
+def _work(a):
+    tier = a[-1] if isinstance(a[-1], str) and a[-1] in ("quick", "thorough") else next((x for x in a if x in ("quick", "thorough")), "quick")
+    XC.__init__(every=15 if tier == "thorough" else 60, first=1, cap=10 if tier == "thorough" else 3)
+    r = _work_inner(a)
+    if isinstance(r, dict):
+        r["xcheck"] = XC.summary()
+    return r
 
 
 def main(pid, tier):
@@ -234,6 +248,7 @@ def main(pid, tier):
         chk.programs += r["programs"]
         chk.solver_s += r["solver_s"]
         chk.functions.update(r["functions"])
+        chk.xc.merge(r.get("xcheck"))
         for n in r["ok"]:
             chk.ok(n)
             chk.nontrivial.add(n)
